@@ -569,6 +569,11 @@ CLAIMED.update({
 
 
 _more("C04", "Added (C04-changelist): the changelist decision table of C05 is part of this check too — a change dropped or cancelled there makes the backend report what nobody asked for.")
+_more("C04", "Added (C04-evmap): the reader/writer counts of an fd are stored only after the backend accepted the add (C05's rule, run here as well) — counts stored before a failing "
+      "backend add make the next add believe the fd is registered, and the backend is never told about events this property promises to deliver.")
+_more("C35", "Added: the compression-table lookup is decided by evaluation — on every table of up to three distinct names (prefixes and suffixes of one another) and seven looked-up names the "
+      "result is the position of the entry with the very same name, or negative.")
+_more("C10", "Added: the exactly-once walk over event_base_once follows only consistent edges of repeated tests of one plain local (correlated branches), so a single-exit spelling is judged like the original.")
 _more("C10", "Added (C10-fresh): the deferred runners re-read callback pointers after every earlier user callback (C19's rule reused: a cached pointer is a use after release).")
 _more("C19", "Added (C19-refs): bufferevent_private.refcnt is initialised once, incremented only in the incref functions and decremented only in bufferevent_decref_and_unlock_ "
              "(a second decrement site cannot know whether the deferred queue holds a reference).")
